@@ -1137,6 +1137,108 @@ fn run(ctx: &RunCtx) {
     if ctx.child.is_none() {
         let _ = std::fs::remove_dir_all(&base);
     }
+    // symbolic links inside the input tree (a linked file, a linked directory): the files they lead to
+    // are files under the input like any other
+    let n_links = ctx.tier.pick(120, 1_200);
+    let link_base = ctx.verif_dir.join(".work/c11links");
+    let _ = std::fs::create_dir_all(&link_base);
+    ctx.search("symlinks", n_links, 200, |tape, st| {
+        let mut t = Tape::new(tape);
+        let case = gen_cwd_case(&mut t);
+        let Ok(dir) = tempfile::tempdir_in(&link_base) else { return CaseResult::Discard("cannot create temp dir") };
+        st.class("symlink_case");
+        match check_links(&case, dir.path(), &mut t) {
+            Ok(()) => CaseResult::Pass { nontrivial: Some(hash_str(&case.to_json().to_string())) },
+            Err(m) if m.starts_with("harness:") => CaseResult::Discard("harness: cannot set the tree up"),
+            Err(m) => CaseResult::Fail(Failure::new(m, json!({"kind": "symlinks", "case": case.to_json()}))),
+        }
+    });
+    let _ = std::fs::remove_dir_all(&link_base);
+}
+
+/// the tree of `case` under <dir>/in, plus <dir>/shared/{x.lua, deep/y.luau} reached through a
+/// file link and a directory link placed in a generated position
+fn check_links(case: &CwdCase, dir: &Path, t: &mut Tape) -> Result<(), String> {
+    let io = |e: std::io::Error| format!("harness: {}", e);
+    let root = dir.join("in");
+    std::fs::create_dir_all(&root).map_err(io)?;
+    for (p, c) in &case.files {
+        let f = root.join(p);
+        std::fs::create_dir_all(f.parent().unwrap()).map_err(io)?;
+        std::fs::write(&f, c).map_err(io)?;
+    }
+    let shared = dir.join("shared");
+    std::fs::create_dir_all(shared.join("deep")).map_err(io)?;
+    std::fs::write(shared.join("x.lua"), "-- shared x\nreturn 'x'\n").map_err(io)?;
+    std::fs::write(shared.join("deep/y.luau"), "-- shared y\nreturn 'y'\n").map_err(io)?;
+    // link positions: the root or an existing sub-directory
+    let mut dirs: Vec<PathBuf> = vec![PathBuf::new()];
+    for (p, _) in &case.files {
+        if let Some(parent) = Path::new(p).parent() {
+            if !dirs.contains(&parent.to_path_buf()) {
+                dirs.push(parent.to_path_buf());
+            }
+        }
+    }
+    let file_at = dirs[t.choose(dirs.len())].join("linked file.lua");
+    let dir_at = dirs[t.choose(dirs.len())].join("linked_dir");
+    let absolute = t.bool(128);
+    let target = |name: &str, from: &Path| -> PathBuf {
+        if absolute {
+            shared.join(name)
+        } else {
+            let ups = from.components().count();
+            let mut p = PathBuf::new();
+            for _ in 0..ups {
+                p.push("..");
+            }
+            p.join("shared").join(name)
+        }
+    };
+    std::os::unix::fs::symlink(target("x.lua", &file_at), root.join(&file_at)).map_err(io)?;
+    std::os::unix::fs::symlink(target("", &dir_at), root.join(&dir_at)).map_err(io)?;
+    let config = dl::parse_config("{ rules: [], generator: \"retain_lines\" }").map_err(|e| format!("harness: {}", e))?;
+    let out = dir.join("out");
+    let result = catch(|| {
+        let options = Options::new(root.clone()).with_output(out.clone()).with_configuration(config);
+        darklua_core::process(&Resources::from_file_system(), options).map(|tree| tree.collect_errors().iter().map(|e| e.to_string()).collect::<Vec<_>>())
+    });
+    match result {
+        Err(p) => return Err(format!("darklua panicked: {}", p)),
+        Ok(Err(e)) => return Err(format!("processing a tree with symbolic links fails: {}", e)),
+        Ok(Ok(errs)) if !errs.is_empty() => return Err(format!("processing a tree with symbolic links reports errors: {:?}", errs)),
+        Ok(Ok(_)) => {}
+    }
+    let mut expected: Vec<(PathBuf, String)> = case.files.iter().map(|(p, c)| (PathBuf::from(p), c.clone())).collect();
+    expected.push((file_at.clone(), "-- shared x\nreturn 'x'\n".into()));
+    expected.push((dir_at.join("x.lua"), "-- shared x\nreturn 'x'\n".into()));
+    expected.push((dir_at.join("deep/y.luau"), "-- shared y\nreturn 'y'\n".into()));
+    for (p, c) in &expected {
+        let got = std::fs::read(out.join(p)).map_err(|e| format!("no output at the mirrored path `{}` (link to a file: `{}`, link to a directory: `{}`): {}", p.display(), file_at.display(), dir_at.display(), e))?;
+        if got != c.as_bytes() {
+            return Err(format!("the output at `{}` is not darklua's output for the file it leads to: {:?}", p.display(), String::from_utf8_lossy(&got)));
+        }
+    }
+    let mut count = 0;
+    let mut stack = vec![out.clone()];
+    while let Some(d) = stack.pop() {
+        for e in std::fs::read_dir(&d).map_err(io)? {
+            let e = e.map_err(io)?;
+            if e.file_type().map_err(io)?.is_dir() {
+                stack.push(e.path());
+            } else {
+                count += 1;
+            }
+        }
+    }
+    if count != expected.len() {
+        return Err(format!("{} files were written, {} were expected (link to a file: `{}`, link to a directory: `{}`)", count, expected.len(), file_at.display(), dir_at.display()));
+    }
+    // the link targets are not modified
+    if std::fs::read(shared.join("x.lua")).map_err(io)? != b"-- shared x\nreturn 'x'\n" {
+        return Err("the file a link leads to was modified".into());
+    }
+    Ok(())
 }
 
 /// a tree processed from inside it: `input` is a spelling of the current directory
@@ -1263,6 +1365,26 @@ fn check_cwd(case: &CwdCase, base: &Path) -> Result<bool, String> {
 }
 
 fn replay(v: &Value) -> Result<(), String> {
+    if v.get("kind").and_then(|k| k.as_str()) == Some("symlinks") {
+        // the positions of the links are generated: the replay tries every position with a fixed tape
+        let case = CwdCase::from_json(v.get("case").ok_or("malformed C11 replay file")?).ok_or("malformed C11 replay file")?;
+        let base = PathBuf::from(std::env::var("VERIF_DIR").unwrap_or_else(|_| "/verif".into())).join(".work/c11links-replay");
+        let _ = std::fs::create_dir_all(&base);
+        let mut result = Ok(());
+        for k in 0..16u8 {
+            let dir = tempfile::tempdir_in(&base).map_err(|e| e.to_string())?;
+            let tape = [k.wrapping_mul(37), k.wrapping_mul(91), k.wrapping_mul(17)];
+            let mut t = Tape::new(&tape);
+            if let Err(m) = check_links(&case, dir.path(), &mut t) {
+                if !m.starts_with("harness:") {
+                    result = Err(m);
+                    break;
+                }
+            }
+        }
+        let _ = std::fs::remove_dir_all(&base);
+        return result;
+    }
     if v.get("kind").and_then(|k| k.as_str()) == Some("cwd_input") {
         let case = CwdCase::from_json(v).ok_or("malformed C11 replay file")?;
         let base = PathBuf::from(std::env::var("VERIF_DIR").unwrap_or_else(|_| "/verif".into())).join(".work/c11cwd-replay");
